@@ -70,6 +70,7 @@ type table struct {
 	ddl   string
 	setup []string
 	nkeys int
+	pairs [][2]string // t_doc: existing (docname, ver) pairs
 }
 
 func mkTable(r *hutil.Rng, variant int, sepKeys bool) table {
@@ -80,25 +81,25 @@ func mkTable(r *hutil.Rng, variant int, sepKeys bool) table {
 	switch variant {
 	case 0:
 		t.name, t.auto, t.pk = "t_acc", true, []int{0}
-		t.cols = []ColMeta{{"id", "int", false}, {"name", "str", true}, {"age", "int", false}, {"score", "int", true}}
-		t.ddl = "CREATE TABLE t_acc (id BIGINT NOT NULL AUTO_INCREMENT, name VARCHAR(32) DEFAULT NULL, age INT NOT NULL DEFAULT 0, score BIGINT DEFAULT NULL, PRIMARY KEY (id))"
+		t.cols = []ColMeta{{"id", "int", false}, {"userName", "str", true}, {"age", "int", false}, {"Score", "int", true}}
+		t.ddl = "CREATE TABLE t_acc (id BIGINT NOT NULL AUTO_INCREMENT, userName VARCHAR(32) DEFAULT NULL, age INT NOT NULL DEFAULT 0, Score BIGINT DEFAULT NULL, PRIMARY KEY (id))"
 		for i := 1; i <= n; i++ {
 			sc := "NULL"
 			if r.Chance(2, 3) {
 				sc = strconv.Itoa(r.Intn(50))
 			}
-			t.setup = append(t.setup, fmt.Sprintf("INSERT INTO t_acc (id,name,age,score) VALUES (%d,'%s',%d,%s)", i, str(r.Intn(5)), r.Intn(50), sc))
+			t.setup = append(t.setup, fmt.Sprintf("INSERT INTO t_acc (id,userName,age,Score) VALUES (%d,'%s',%d,%s)", i, str(r.Intn(5)), r.Intn(50), sc))
 		}
 	case 1:
 		t.name, t.pk = "t_item", []int{0}
-		t.cols = []ColMeta{{"code", "str", false}, {"qty", "int", false}, {"note", "str", true}}
-		t.ddl = "CREATE TABLE t_item (code VARCHAR(16) NOT NULL, qty INT NOT NULL DEFAULT 0, note VARCHAR(32) DEFAULT NULL, PRIMARY KEY (code))"
+		t.cols = []ColMeta{{"code", "str", false}, {"Qty", "int", false}, {"note", "str", true}}
+		t.ddl = "CREATE TABLE t_item (code VARCHAR(16) NOT NULL, Qty INT NOT NULL DEFAULT 0, note VARCHAR(32) DEFAULT NULL, PRIMARY KEY (code))"
 		for i := 1; i <= n; i++ {
 			code := "c" + strconv.Itoa(i)
 			if sepKeys && i%2 == 0 {
 				code = "c_" + strconv.Itoa(i)
 			}
-			t.setup = append(t.setup, fmt.Sprintf("INSERT INTO t_item (code,qty,note) VALUES ('%s',%d,'%s')", code, r.Intn(50), str(r.Intn(5))))
+			t.setup = append(t.setup, fmt.Sprintf("INSERT INTO t_item (code,Qty,note) VALUES ('%s',%d,'%s')", code, r.Intn(50), str(r.Intn(5))))
 		}
 	case 2:
 		t.name, t.pk = "t_pair", []int{0, 1}
@@ -106,6 +107,20 @@ func mkTable(r *hutil.Rng, variant int, sepKeys bool) table {
 		t.ddl = "CREATE TABLE t_pair (a INT NOT NULL, b VARCHAR(8) NOT NULL, v INT DEFAULT NULL, w VARCHAR(16) DEFAULT NULL, PRIMARY KEY (a,b))"
 		for i := 1; i <= n; i++ {
 			t.setup = append(t.setup, fmt.Sprintf("INSERT INTO t_pair (a,b,v,w) VALUES (%d,'%s',%d,'%s')", (i+1)/2, []string{"x", "y"}[i%2], r.Intn(50), str(r.Intn(5))))
+		}
+	case 5:
+		// auto-increment key with an upper-case name + a secondary unique index (upserts)
+		t.name, t.auto, t.pk = "t_doc", true, []int{0}
+		t.cols = []ColMeta{{"ID", "int", false}, {"docname", "str", false}, {"ver", "int", false}, {"body", "str", true}}
+		t.ddl = "CREATE TABLE t_doc (ID BIGINT NOT NULL AUTO_INCREMENT, docname VARCHAR(32) NOT NULL, ver INT NOT NULL DEFAULT 0, body VARCHAR(32) DEFAULT NULL, PRIMARY KEY (ID), UNIQUE KEY uk_doc (docname, ver))"
+		all := [][2]string{{"a", "1"}, {"b", "1"}, {"b", "2"}, {"c", "1"}, {"a", "2"}, {"c", "2"}}
+		if n < 2 {
+			n = 2
+			t.nkeys = 2
+		}
+		for i := 1; i <= n; i++ {
+			t.pairs = append(t.pairs, all[i-1])
+			t.setup = append(t.setup, fmt.Sprintf("INSERT INTO t_doc (ID,docname,ver,body) VALUES (%d,'%s',%s,'%s')", i, all[i-1][0], all[i-1][1], str(r.Intn(5))))
 		}
 	case 4:
 		t.name, t.pk = "t_rev", []int{0, 1}
@@ -116,10 +131,10 @@ func mkTable(r *hutil.Rng, variant int, sepKeys bool) table {
 		}
 	default:
 		t.name, t.pk = "t_kv", []int{0}
-		t.cols = []ColMeta{{"k", "int", false}, {"v", "int", false}}
-		t.ddl = "CREATE TABLE t_kv (k INT NOT NULL, v INT NOT NULL DEFAULT 0, PRIMARY KEY (k))"
+		t.cols = []ColMeta{{"k", "int", false}, {"Val", "int", false}}
+		t.ddl = "CREATE TABLE t_kv (k INT NOT NULL, Val INT NOT NULL DEFAULT 0, PRIMARY KEY (k))"
 		for i := 1; i <= n; i++ {
-			t.setup = append(t.setup, fmt.Sprintf("INSERT INTO t_kv (k,v) VALUES (%d,%d)", i, r.Intn(50)))
+			t.setup = append(t.setup, fmt.Sprintf("INSERT INTO t_kv (k,Val) VALUES (%d,%d)", i, r.Intn(50)))
 		}
 	}
 	return t
@@ -332,6 +347,7 @@ type stmtOpt struct {
 	where    whereOpt
 	pkChange bool
 	insMode  string // "" | null-pk | zero-pk | auto-batch | dup
+	upMode   string // "" | pk-unique (upsert lists a fresh key, collides on the unique index and changes a column of it)
 }
 
 func genUpdate(r *hutil.Rng, t *table, o stmtOpt) (string, StmtMeta) {
@@ -340,7 +356,7 @@ func genUpdate(r *hutil.Rng, t *table, o stmtOpt) (string, StmtMeta) {
 	b.w("UPDATE " + t.name + " SET ")
 	var nonpk []int
 	for c := range t.cols {
-		if !t.isPK(c) {
+		if !t.isPK(c) && !(t.name == "t_doc" && t.cols[c].Name != "body") {
 			nonpk = append(nonpk, c)
 		}
 	}
@@ -489,13 +505,15 @@ func genInsert(r *hutil.Rng, t *table, o stmtOpt) (string, StmtMeta) {
 				keyv[c] = v
 			} else if col.Kind == "int" {
 				v = atrun.I(int64(r.Intn(90)))
+			} else if col.Name == "docname" {
+				v = atrun.S("f" + strconv.FormatInt(g0.freshInt(), 10))
 			} else {
 				v = atrun.S("i" + strconv.Itoa(r.Intn(40)))
 			}
 			switch {
 			case !t.isPK(c) && col.Nullable && r.Chance(1, 6):
 				b.w("NULL")
-			case !t.isPK(c) && r.Chance(1, 8):
+			case !t.isPK(c) && col.Name != "docname" && r.Chance(1, 8):
 				b.w("DEFAULT")
 			case r.Chance(3, 5):
 				b.w("?")
@@ -525,16 +543,22 @@ func genInsert(r *hutil.Rng, t *table, o stmtOpt) (string, StmtMeta) {
 // statement's own WHERE text.
 func buildScenario(r *hutil.Rng, i int, stream string, prop string) (atrun.Scenario, Meta) {
 	g0 = &genState{}
-	variant := r.Intn(5)
+	variant := r.Intn(6)
 	pred := ""
 	if strings.HasPrefix(stream, "finding:") {
 		pred = strings.TrimPrefix(stream, "finding:")
 		if pred == "insert.pk-null-or-zero" || pred == "insert.auto-batch" {
 			variant = 0
 		}
+		if pred == "upsert.pk-listed.unique-changed" {
+			variant = 5
+		}
 	}
 	if pred == "lockkey.separator" {
 		variant = 1
+	}
+	if pred == "" && r.Chance(1, 4) {
+		variant = 5 // upserts only exist on the schema with a secondary unique index: keep it frequent
 	}
 	t := mkTable(r, variant, pred == "lockkey.separator")
 	onlyCare := r.Chance(1, 2)
@@ -564,6 +588,8 @@ func buildScenario(r *hutil.Rng, i int, stream string, prop string) (atrun.Scena
 				o.insMode = []string{"null-pk", "zero-pk"}[r.Intn(2)]
 			case "insert.auto-batch":
 				o.insMode = "auto-batch"
+			case "upsert.pk-listed.unique-changed":
+				o.upMode = "pk-unique"
 			}
 		}
 		var sql string
@@ -586,6 +612,18 @@ func buildScenario(r *hutil.Rng, i int, stream string, prop string) (atrun.Scena
 				}
 			}
 			sm.Pred = pred
+		case t.name == "t_doc" && (kind < 5 || o.upMode != "" || (stream == "malformed" && special)):
+			if stream == "malformed" && special {
+				o.pkChange = true
+			}
+			var msql string
+			var margs []atrun.Arg
+			sql, sm, msql, margs = genUpsert(r, &t, o)
+			sm.MatchPath = fmt.Sprintf("0.%d", len(body))
+			body = append(body, atrun.Step{Op: "query", Via: "bare", NoCtx: true, SQL: msql, Args: margs})
+			if o.upMode != "" {
+				sm.Pred = pred
+			}
 		case kind < 5:
 			sql, sm = genUpdate(r, &t, o)
 		case kind < 7:
@@ -596,7 +634,7 @@ func buildScenario(r *hutil.Rng, i int, stream string, prop string) (atrun.Scena
 		if o.insMode == "null-pk" || o.insMode == "zero-pk" || o.insMode == "auto-batch" || pred == "lockkey.separator" {
 			sm.Pred = pred
 		}
-		if stream == "malformed" && special && !o.pkChange && o.insMode == "" {
+		if stream == "malformed" && special && !o.pkChange && o.insMode == "" && sm.Kind != "upsert" {
 			// a statement the database rejects: unknown column / wrong argument count
 			if r.Chance(1, 2) {
 				sql = strings.Replace(sql, t.cols[len(t.cols)-1].Name, "nosuch", 1)
@@ -608,7 +646,7 @@ func buildScenario(r *hutil.Rng, i int, stream string, prop string) (atrun.Scena
 			}
 			sm.Expect = "reject-db" // refused by the database for a reason outside the row-level model
 		}
-		if sm.Kind != "insert" {
+		if sm.Kind != "insert" && sm.Kind != "upsert" {
 			sel := "SELECT " + strings.Join(t.pkNames(), ", ") + " FROM " + t.name + sql[tailStart(sql):]
 			nTail := strings.Count(sql[tailStart(sql):], "?")
 			margs := sm.Args
@@ -647,4 +685,82 @@ func tailStart(sql string) int {
 		}
 	}
 	return len(sql)
+}
+
+// genUpsert: INSERT ... ON DUPLICATE KEY UPDATE on t_doc (auto-increment key ID, unique (docname, ver)); returns the
+// statement, its metadata and a bare SELECT of the keys of the existing rows it collides with.
+func genUpsert(r *hutil.Rng, t *table, o stmtOpt) (string, StmtMeta, string, []atrun.Arg) {
+	m := StmtMeta{Kind: "upsert", Expect: "ok"}
+	pkListed := r.Chance(1, 3) || o.upMode == "pk-unique"
+	nrows := 1 + r.Intn(2)
+	if o.upMode == "pk-unique" {
+		nrows = 1
+	}
+	m.NRows = nrows
+	b := &sqlb{}
+	if pkListed {
+		b.w("INSERT INTO t_doc (ID, docname, ver, body) VALUES ")
+	} else {
+		b.w("INSERT INTO t_doc (docname, ver, body) VALUES ")
+	}
+	var arms []string
+	var margs []atrun.Arg
+	val := func(a atrun.Arg) {
+		if r.Chance(3, 5) {
+			b.w("?")
+			b.args = append(b.args, a)
+		} else {
+			b.w(litOf(a))
+		}
+	}
+	for row := 0; row < nrows; row++ {
+		if row > 0 {
+			b.w(", ")
+		}
+		b.w("(")
+		pair := [2]string{"n" + strconv.FormatInt(g0.freshInt(), 10), "1"}
+		collide := r.Chance(1, 2) && len(t.pairs) > 0
+		if pkListed {
+			id := atrun.I(g0.freshInt())
+			if r.Chance(1, 4) && o.upMode == "" {
+				id = atrun.I(int64(1 + r.Intn(t.nkeys))) // collides on the primary key only
+				collide = false
+			}
+			val(id)
+			b.w(", ")
+			arms = append(arms, "ID = ?")
+			margs = append(margs, id)
+		}
+		if collide || o.upMode == "pk-unique" {
+			pair = t.pairs[r.Intn(len(t.pairs))]
+		}
+		ver, _ := strconv.ParseInt(pair[1], 10, 64)
+		val(atrun.S(pair[0]))
+		b.w(", ")
+		val(atrun.I(ver))
+		b.w(", ")
+		val(atrun.S("b" + strconv.Itoa(r.Intn(40))))
+		b.w(")")
+		arms = append(arms, "(docname = ? AND ver = ?)")
+		margs = append(margs, atrun.S(pair[0]), atrun.I(ver))
+	}
+	b.w(" ON DUPLICATE KEY UPDATE ")
+	switch {
+	case o.pkChange:
+		b.w("ID = ID + 100")
+		m.Cols = []int{0}
+		m.Expect = "reject"
+	case o.upMode == "pk-unique" || (nrows == 1 && !pkListed && r.Chance(1, 2)):
+		b.w("ver = ver + 10")
+		m.Cols = []int{2}
+	case r.Chance(1, 2):
+		b.w("body = VALUES(body)")
+		m.Cols = []int{3}
+	default:
+		b.w("body = ?")
+		b.args = append(b.args, atrun.S("d"+strconv.Itoa(r.Intn(40))))
+		m.Cols = []int{3}
+	}
+	m.Args = b.args
+	return b.sb.String(), m, "SELECT ID FROM t_doc WHERE " + strings.Join(arms, " OR "), margs
 }
